@@ -60,6 +60,7 @@ VOC = [
     ("datetime", "date", [("BININT2", 2020), ("BININT1", 1), ("BININT1", 2)], True),
     ("decimal", "Decimal", [(S, "1.5")], True),
     ("mypkg.sub", "Thing", [], True),
+    ("verif_canary_pkg.sub", "go", [], False),        # importable non-stdlib package (see c02_child.install_canary)
     ("os.path", "join", [(S, "a"), (S, "b")], False),
 ]
 # hook operations performed BEFORE the arming (C02_armed_equiv quantifies over every ML-free history)
@@ -372,7 +373,8 @@ def real_reads(real):
 
 
 def nothing_ran(real):
-    return real.get("events") == [] and real.get("sink") == 0 and real.get("loads") == [] and real.get("load_calls") == 0
+    return real.get("events") == [] and real.get("sink") == 0 and real.get("loads") == [] and \
+        real.get("load_calls") == 0 and not real.get("imports")
 
 
 def compare(case, mline, real):
@@ -476,7 +478,7 @@ def oracle_all(case, real):
             out.append(f"returned an object although there is no verdict: {why}")
         if not nothing_ran(real):
             out.append(f"no verdict ({why}) yet something ran: find_class={real['events']} sink={real['sink']} "
-                       f"unpickled={len(real['loads'])}")
+                       f"unpickled={len(real['loads'])} imported={real.get('imports')}")
         if real["r"] == "UNSAFE" and ref is None:
             out.append("UnsafeFileError without a complete pickle to give a verdict on")
         return out
@@ -495,7 +497,7 @@ def oracle_all(case, real):
             out.append("UnsafeFileError.info is not the verdict's to_dict()")
         if not nothing_ran(real):
             out.append(f"refused ({name}) yet something ran: find_class={real['events']} "
-                       f"sink={real['sink']} unpickled={len(real['loads'])}")
+                       f"sink={real['sink']} unpickled={len(real['loads'])} imported={real.get('imports')}")
         return out
     # returned, or raised something else
     if not may_return:
